@@ -105,8 +105,9 @@ def pcapng(items, le=True, tsresol=None, tsoffset=None, snaplen=262144, junk_blo
             _, ts_us, frame = it
             if tsoffset:
                 ts_us -= tsoffset * 10 ** 6
-            ticks, rem = divmod(ts_us * den, 10 ** 6)
+            ticks, rem = divmod(ts_us * den, 10 ** 6)      # ts_us may be a Fraction (sub-microsecond capture clocks)
             assert rem == 0, "timestamp not representable at this resolution"
+            ticks = int(ticks)
             assert ticks >= 0, "timestamp before the interface offset"
             if obsolete_pb and (n * 2654435761 % 1000) / 1000.0 < obsolete_pb:
                 out.append(_block(2, struct.pack(e + "HHIIII", 0, 0, ticks >> 32, ticks & 0xFFFFFFFF, len(frame), len(frame)) + frame, e))
